@@ -491,7 +491,41 @@ func (c *Ctx) ord4() {
 	unsaved := c.acc("ORD-4", rs, "flush-without-marker-Save⇒proven-not-PUBREC")
 	dupeServed := c.acc("ORD-4", rs, "duplicate⇒never-served")
 	dupeEsc := c.acc("ORD-4", rs, "errDupe-does-not-escape")
+	owed := c.acc("ORD-4", rs, "acknowledgement-pending⇒marker-Save-or-write-attempted-before-any-return")
 	for _, p := range c.Paths("ORD-4", rs) {
+		// calling ReadSlices again is the application taking ownership: with an
+		// acknowledgement pending, nothing ends the call before the marker is
+		// saved (PUBREC) or the write was tried — whatever state the client is in
+		if p.Start == rs.Blocks[0] && p.End == pathx.KReturn {
+			ia := -1
+			for i := range p.Events {
+				e := &p.Events[i]
+				if e.Kind != pathx.KAssume {
+					continue
+				}
+				if cm, ok := cmpOf(e.Val, e.Truth); ok && cm.Op == token.NEQ && isK(cm.Y, 0) {
+					if x, isLen := builtinCall(cm.X, "len"); isLen && roleKey(x) == "Client.pendingAck" {
+						ia = i
+						break
+					}
+				}
+			}
+			if ia >= 0 {
+				tried := false
+				for i := ia; i < len(p.Events); i++ {
+					e := &p.Events[i]
+					if persistenceOp(e) == "Save" || e.Kind == pathx.KCall && e.Callee != nil && wire[e.Callee] {
+						tried = true
+						break
+					}
+				}
+				if tried {
+					owed.pass()
+				} else {
+					owed.fail(p, len(p.Events)-1, "ReadSlices returns with an acknowledgement pending and neither the reception marker saved nor the acknowledgement write tried: the application took ownership of the message, yet after a restart on the same Persistence the broker's retransmission is delivered a second time")
+				}
+			}
+		}
 		// first peekPacket call on the path
 		ip := p.Index(0, func(e *pathx.Event) bool { return isCallTo(e, peek) })
 		if p.Start == rs.Blocks[0] && ip >= 0 {
@@ -711,6 +745,7 @@ func (c *Ctx) ord4() {
 			}
 		}
 	}
+	owed.done(1, "every return behind len(pendingAck) != 0 follows the marker Save or the write")
 	dupeServed.done(1, "a path with err == errDupe ends in the next iteration or in an error return")
 	dupeEsc.done(2, "every return of onPUBLISH's error has excluded errDupe")
 	unsaved.done(1, "the only flush without a Save lies behind pendingAck[0]>>4 != typePUBREC")
